@@ -216,3 +216,354 @@ Proof.
   rewrite <- prefix_total. replace (prefix g (nrows g)) with (prefix g ((nrows g - 1) + 1)) by (f_equal; lia).
   rewrite prefix_succ by lia. lia.
 Qed.
+
+(* ---------------------------------------------------------------- aliased groups: column-major over ragged rows *)
+
+(* rows of the list that have a cell in column x *)
+Definition ccount (x : Z) (l : list Z) : Z := zlen (filter (fun len => x <? len) l).
+Definition cbelow (g : grp) (x y : Z) : Z := ccount x (firstn (Z.to_nat y) (g_rows g)).
+Definition ctotal (g : grp) (x : Z) : Z := ccount x (g_rows g).
+Fixpoint colsum_n (g : grp) (k : nat) : Z := match k with O => 0 | S j => colsum_n g j + ctotal g (Z.of_nat j) end.
+Definition colsum (g : grp) (x : Z) : Z := colsum_n g (Z.to_nat x).
+
+(* cells before position (y, x) in column-major order *)
+Definition vrank (g : grp) (x y : Z) : Z := colsum g x + cbelow g x y.
+Definition rank_al (g : grp) (c : Z * Z) : Z := vrank g (snd c) (fst c).
+Definition total_al (g : grp) : Z := colsum g (g_maxx g).
+
+Definition wf_aliased (g : grp) : Prop :=
+  g_aliased g = true /\ g_maxy g = nrows g /\ g_ncols g = g_maxx g /\ 0 < nrows g /\ 0 < g_maxx g /\
+  Forall (fun l => 1 <= l <= g_maxx g) (g_rows g).
+
+Lemma ccount_app : forall x a b, ccount x (a ++ b) = ccount x a + ccount x b.
+Proof. intros. unfold ccount. rewrite filter_app. unfold zlen. rewrite app_length. lia. Qed.
+
+Lemma ccount_ge0 : forall x l, 0 <= ccount x l.
+Proof. intros. unfold ccount, zlen. lia. Qed.
+
+Lemma cbelow_succ : forall g x y, 0 <= y < nrows g ->
+  cbelow g x (y + 1) = cbelow g x y + (if x <? rowlen g y then 1 else 0).
+Proof.
+  intros g x y H. unfold cbelow, rowlen, nrows, zlen in *.
+  replace (Z.to_nat (y + 1)) with (S (Z.to_nat y)) by lia.
+  rewrite firstn_succ_nth by lia. rewrite ccount_app. f_equal.
+  unfold ccount. cbn [filter]. destruct (x <? nth (Z.to_nat y) (g_rows g) 0); reflexivity.
+Qed.
+
+Lemma cbelow_all : forall g x, cbelow g x (nrows g) = ctotal g x.
+Proof. intros. unfold cbelow, ctotal, nrows, zlen. rewrite Nat2Z.id, firstn_all. reflexivity. Qed.
+
+Lemma cbelow_0 : forall g x, cbelow g x 0 = 0.
+Proof. reflexivity. Qed.
+
+Lemma colsum_succ : forall g x, 0 <= x -> colsum g (x + 1) = colsum g x + ctotal g x.
+Proof.
+  intros g x H. unfold colsum. replace (Z.to_nat (x + 1)) with (S (Z.to_nat x)) by lia.
+  cbn [colsum_n]. rewrite Z2Nat.id by lia. reflexivity.
+Qed.
+
+Lemma vrank_wrap : forall g x, 0 <= x -> vrank g x (nrows g) = vrank g (x + 1) 0.
+Proof. intros g x H. unfold vrank. rewrite cbelow_all, cbelow_0, colsum_succ by lia. lia. Qed.
+
+(* the forward scan of findFirstCandidate from any position of the grid: it stops on the
+   first cell at or after the position in column-major order - the cell whose rank is the
+   number of cells before the position - or reports the end of the group when there is none *)
+Lemma find_first_forward : forall fuel g px py, wf_aliased g ->
+  0 <= px < g_maxx g -> 0 <= py < nrows g ->
+  (g_maxx g - px) * (nrows g + 1) + (nrows g - py) < Z.of_nat fuel ->
+  match find_first fuel g 0 1 px py with
+  | Ok (px', py', false, _) => 0 <= py' < nrows g /\ 0 <= px' < rowlen g py' /\ px' < g_maxx g /\ vrank g px' py' = vrank g px py
+  | Ok (_, _, true, next) => next = true /\ vrank g px py = total_al g
+  | _ => False
+  end.
+Proof.
+  induction fuel as [|fuel IH]; intros g px py W Hx Hy Hf; [destruct W as (_ & _ & _ & N0 & _); cbn in Hf; nia|].
+  pose proof W as (A & MY & NC & N & MX & R).
+  cbn [find_first]. rewrite (idx_rows 401 g py Hy). cbn [bind].
+  destruct (rowlen g py - 1 <? px) eqn:E.
+  - (* no cell here: go down *)
+    rewrite Z.add_0_r.
+    replace (py + 1 <? 0) with false by lia.
+    assert (V : vrank g px (py + 1) = vrank g px py).
+    { unfold vrank. rewrite cbelow_succ by lia. replace (px <? rowlen g py) with false by lia. lia. }
+    rewrite MY.
+    destruct (nrows g - 1 <? py + 1) eqn:E2.
+    + assert (py + 1 = nrows g) by lia.
+      rewrite NC. destruct (px <? g_maxx g - 1) eqn:E3.
+      * specialize (IH g (px + 1) 0 W ltac:(lia) ltac:(lia) ltac:(nia)).
+        destruct (find_first fuel g 0 1 (px + 1) 0) as [[[[px' py'] done] next]| |]; try contradiction.
+        assert (V2 : vrank g (px + 1) 0 = vrank g px py) by (rewrite <- vrank_wrap by lia; rewrite <- V; f_equal; lia).
+        destruct done; [destruct IH as [I1 I2]; split; [exact I1 | lia] | destruct IH as (I1 & I2 & I3 & I4); repeat split; try lia].
+      * split; [reflexivity|]. unfold total_al. replace (g_maxx g) with (px + 1) by lia.
+        rewrite <- V. replace (py + 1) with (nrows g) by lia. rewrite vrank_wrap by lia. unfold vrank. rewrite cbelow_0. lia.
+    + specialize (IH g px (py + 1) W Hx ltac:(lia) ltac:(nia)).
+      destruct (find_first fuel g 0 1 px (py + 1)) as [[[[px' py'] done] next]| |]; try contradiction.
+      destruct done; [destruct IH as [I1 I2]; split; [exact I1 | lia] | destruct IH as (I1 & I2 & I3 & I4); repeat split; try lia].
+  - repeat split; lia.
+Qed.
+
+Lemma ff_fuel_enough : forall g px py, wf_aliased g -> 0 <= px < g_maxx g -> 0 <= py < nrows g ->
+  (g_maxx g - px) * (nrows g + 1) + (nrows g - py) < Z.of_nat (ff_fuel g).
+Proof.
+  intros g px py (A & MY & NC & N & MX & R) Hx Hy. unfold ff_fuel. rewrite NC.
+  rewrite Nat2Z.inj_succ. rewrite Z2Nat.id by nia. nia.
+Qed.
+
+Lemma find_first_set_pos : forall f g a b x y px py,
+  find_first f (set_pos g a b) x y px py = find_first f g x y px py.
+Proof.
+  induction f as [|f IH]; intros g a b x y px py; [reflexivity|]. cbn [find_first]. cbv zeta.
+  change (g_rows (set_pos g a b)) with (g_rows g). change (nrows (set_pos g a b)) with (nrows g).
+  change (g_maxy (set_pos g a b)) with (g_maxy g). change (g_ncols (set_pos g a b)) with (g_ncols g).
+  destruct (idx 401 (g_rows g) py) as [l| |]; cbn [bind]; try reflexivity.
+  destruct (l - 1 <? px); [|reflexivity].
+  destruct (py + y + x <? 0).
+  - destruct (px =? 0); [reflexivity|].
+    destruct (g_maxy g - 1 <? nrows g - 1); [destruct (px - 1 <? g_ncols g - 1); [apply IH | reflexivity] | apply IH].
+  - destruct (g_maxy g - 1 <? py + y + x); [destruct (px <? g_ncols g - 1); [apply IH | reflexivity] | apply IH].
+Qed.
+
+Definition valid_al (g : grp) (c : Z * Z) : Prop := valid g c /\ snd c < g_maxx g.
+
+(* menu-complete on an aliased group (Select moves down the column): from any cell, the
+   cell of the next rank in column-major order, or "done, next group" from the last one *)
+Theorem aliased_forward_rank : forall g c, wf_aliased g -> valid_al g c ->
+  match move_selector (at_cell g c) 0 1 with
+  | Ok (g', false, _) => g' = at_cell g (pos_of g') /\ valid_al g (pos_of g') /\ rank_al g (pos_of g') = rank_al g c + 1
+  | Ok (_, true, next) => next = true /\ rank_al g c + 1 = total_al g
+  | _ => False
+  end.
+Proof.
+  intros g [y x] W [[Hy Hx] Hm]. cbn [snd fst] in *. pose proof W as (A & MY & NC & N & MX & R).
+  unfold at_cell, move_selector. cbn [fst snd g_px g_py set_pos g_rows g_aliased g_maxy g_maxx].
+  replace (x =? -1) with false by lia. cbn [andb]. rewrite Z.add_0_r.
+  replace (x <? 0) with false by lia. cbn [bind].
+  replace (y + 1 <? 0) with false by lia.
+  assert (RK : rank_al g (y, x) + 1 = vrank g x (y + 1)).
+  { unfold rank_al, vrank. cbn [fst snd]. rewrite cbelow_succ by lia. replace (x <? rowlen g y) with true by lia. lia. }
+  change (g_rows (set_pos g x y)) with (g_rows g). change (nrows (set_pos g x y)) with (nrows g).
+  rewrite MY.
+  (* the position the scan starts from, after the wrap of step 3 *)
+  destruct (nrows g - 1 <? y + 1) eqn:E3.
+  - assert (Yl : y + 1 = nrows g) by lia.
+    destruct (x <? g_maxx g - 1) eqn:E4.
+    + pose proof (find_first_forward (ff_fuel g) g (x + 1) 0 W ltac:(lia) ltac:(lia) (ff_fuel_enough g (x + 1) 0 W ltac:(lia) ltac:(lia))) as F.
+      assert (V0 : vrank g (x + 1) 0 = rank_al g (y, x) + 1) by (rewrite RK, Yl; symmetry; apply vrank_wrap; lia).
+      rewrite (idx_rows 403 g 0 ltac:(lia)). cbn [bind]. rewrite A.
+      destruct (rowlen g 0 - 1 <? x + 1) eqn:E5.
+      * change (ff_fuel (set_pos g x y)) with (ff_fuel g).
+        rewrite find_first_set_pos.
+        destruct (find_first (ff_fuel g) g 0 1 (x + 1) 0) as [[[[px' py'] done] next]| |]; try contradiction. cbn [bind].
+        destruct done.
+        -- destruct F as [F1 F2]. split; [exact F1 | lia].
+        -- destruct F as (F1 & F2 & F3 & F4). unfold pos_of, at_cell, valid_al, valid. cbn [g_px g_py set_pos fst snd].
+           repeat split; try lia; unfold rank_al in *; cbn [fst snd] in *; lia.
+      * unfold pos_of, at_cell, valid_al, valid. cbn [g_px g_py set_pos fst snd]. repeat split; try lia; unfold rank_al in *; cbn [fst snd] in *; lia.
+    + split; [reflexivity|]. rewrite RK, Yl. rewrite vrank_wrap by lia. unfold total_al, vrank. rewrite cbelow_0.
+      replace (g_maxx g) with (x + 1) by lia. lia.
+  - pose proof (find_first_forward (ff_fuel g) g x (y + 1) W ltac:(lia) ltac:(lia) (ff_fuel_enough g x (y + 1) W ltac:(lia) ltac:(lia))) as F.
+    rewrite (idx_rows 403 g (y + 1) ltac:(lia)). cbn [bind]. rewrite A.
+    destruct (rowlen g (y + 1) - 1 <? x) eqn:E5.
+    + change (ff_fuel (set_pos g x y)) with (ff_fuel g).
+      rewrite find_first_set_pos.
+      destruct (find_first (ff_fuel g) g 0 1 x (y + 1)) as [[[[px' py'] done] next]| |]; try contradiction. cbn [bind].
+      destruct done.
+      * destruct F as [F1 F2]. split; [exact F1 | lia].
+      * destruct F as (F1 & F2 & F3 & F4). unfold pos_of, at_cell, valid_al, valid. cbn [g_px g_py set_pos fst snd].
+        repeat split; try lia; unfold rank_al in *; cbn [fst snd] in *; lia.
+    + unfold pos_of, at_cell, valid_al, valid. cbn [g_px g_py set_pos fst snd]. repeat split; try lia; unfold rank_al in *; cbn [fst snd] in *; lia.
+Qed.
+
+(* the backward scan (menu-complete-backward, and lastCell): the last cell at or before the position *)
+Lemma find_first_backward : forall fuel g px py, wf_aliased g ->
+  0 <= px < g_maxx g -> 0 <= py < nrows g ->
+  px * (nrows g + 1) + py < Z.of_nat fuel ->
+  match find_first fuel g 0 (-1) px py with
+  | Ok (px', py', false, _) => 0 <= py' < nrows g /\ 0 <= px' < rowlen g py' /\ px' < g_maxx g /\ vrank g px' (py' + 1) = vrank g px (py + 1)
+  | Ok (_, _, true, next) => next = false /\ vrank g px (py + 1) = 0
+  | _ => False
+  end.
+Proof.
+  induction fuel as [|fuel IH]; intros g px py W Hx Hy Hf; [destruct W as (_ & _ & _ & N0 & _); cbn in Hf; nia|].
+  pose proof W as (A & MY & NC & N & MX & R).
+  cbn [find_first]. rewrite (idx_rows 401 g py Hy). cbn [bind].
+  destruct (rowlen g py - 1 <? px) eqn:E.
+  - rewrite Z.add_0_r. replace (py + -1) with (py - 1) by lia.
+    assert (V : vrank g px (py + 1) = vrank g px py).
+    { unfold vrank. rewrite cbelow_succ by lia. replace (px <? rowlen g py) with false by lia. lia. }
+    rewrite MY.
+    destruct (py - 1 <? 0) eqn:E2.
+    + assert (py = 0) by lia. subst py.
+      destruct (px =? 0) eqn:E3.
+      * split; [reflexivity|]. rewrite V. assert (px = 0) by lia. subst px. reflexivity.
+      * replace (nrows g - 1 <? nrows g - 1) with false by lia.
+        specialize (IH g (px - 1) (nrows g - 1) W ltac:(lia) ltac:(lia) ltac:(nia)).
+        destruct (find_first fuel g 0 (-1) (px - 1) (nrows g - 1)) as [[[[px' py'] done] next]| |]; try contradiction.
+        assert (V2 : vrank g (px - 1) (nrows g - 1 + 1) = vrank g px (0 + 1)).
+        { rewrite V. replace (nrows g - 1 + 1) with (nrows g) by lia. rewrite vrank_wrap by lia. f_equal. lia. }
+        destruct done; [destruct IH as [I1 I2]; split; [exact I1 | lia] | destruct IH as (I1 & I2 & I3 & I4); repeat split; try lia].
+    + replace (nrows g - 1 <? py - 1) with false by lia.
+      specialize (IH g px (py - 1) W Hx ltac:(lia) ltac:(nia)).
+      destruct (find_first fuel g 0 (-1) px (py - 1)) as [[[[px' py'] done] next]| |]; try contradiction.
+      replace (py - 1 + 1) with py in IH by lia.
+      destruct done; [destruct IH as [I1 I2]; split; [exact I1 | lia] | destruct IH as (I1 & I2 & I3 & I4); repeat split; try lia].
+  - repeat split; lia.
+Qed.
+
+Lemma ff_fuel_enough_back : forall g px py, wf_aliased g -> 0 <= px < g_maxx g -> 0 <= py < nrows g ->
+  px * (nrows g + 1) + py < Z.of_nat (ff_fuel g).
+Proof.
+  intros g px py (A & MY & NC & N & MX & R) Hx Hy. unfold ff_fuel. rewrite NC.
+  rewrite Nat2Z.inj_succ. rewrite Z2Nat.id by nia. nia.
+Qed.
+
+Lemma rank_al_succ : forall g y x, valid_al g (y, x) -> vrank g x (y + 1) = rank_al g (y, x) + 1.
+Proof.
+  intros g y x [[Hy Hx] Hm]. cbn [fst snd] in *. unfold rank_al, vrank. cbn [fst snd].
+  rewrite cbelow_succ by lia. replace (x <? rowlen g y) with true by lia. lia.
+Qed.
+
+(* menu-complete-backward on an aliased group: the previous rank, or "done, previous group" from the first cell *)
+Theorem aliased_backward_rank : forall g c, wf_aliased g -> valid_al g c ->
+  match move_selector (at_cell g c) 0 (-1) with
+  | Ok (g', false, _) => g' = at_cell g (pos_of g') /\ valid_al g (pos_of g') /\ rank_al g (pos_of g') = rank_al g c - 1
+  | Ok (_, true, next) => next = false /\ rank_al g c = 0
+  | _ => False
+  end.
+Proof.
+  intros g [y x] W V. pose proof V as [[Hy Hx] Hm]. cbn [snd fst] in *. pose proof W as (A & MY & NC & N & MX & R).
+  unfold at_cell, move_selector. cbn [fst snd g_px g_py set_pos g_rows g_aliased g_maxy g_maxx].
+  replace (x =? -1) with false by lia. cbn [andb]. rewrite Z.add_0_r. replace (y + -1) with (y - 1) by lia.
+  replace (x <? 0) with false by lia. cbn [bind].
+  change (g_rows (set_pos g x y)) with (g_rows g). change (nrows (set_pos g x y)) with (nrows g).
+  rewrite MY.
+  destruct (y - 1 <? 0) eqn:E2.
+  - assert (y = 0) by lia. subst y.
+    destruct (x =? 0) eqn:E3.
+    + split; [reflexivity|]. assert (x = 0) by lia. subst x. reflexivity.
+    + replace (nrows g - 1 <? nrows g - 1) with false by lia.
+      pose proof (find_first_backward (ff_fuel g) g (x - 1) (nrows g - 1) W ltac:(lia) ltac:(lia)
+                    (ff_fuel_enough_back g (x - 1) (nrows g - 1) W ltac:(lia) ltac:(lia))) as F.
+      assert (V0 : vrank g (x - 1) (nrows g - 1 + 1) = rank_al g (0, x)).
+      { replace (nrows g - 1 + 1) with (nrows g) by lia. rewrite vrank_wrap by lia. unfold rank_al. cbn [fst snd]. f_equal. lia. }
+      rewrite (idx_rows 403 g (nrows g - 1) ltac:(lia)). cbn [bind]. rewrite A.
+      destruct (rowlen g (nrows g - 1) - 1 <? x - 1) eqn:E5.
+      * change (ff_fuel (set_pos g x 0)) with (ff_fuel g). rewrite find_first_set_pos.
+        destruct (find_first (ff_fuel g) g 0 (-1) (x - 1) (nrows g - 1)) as [[[[px' py'] done] next]| |]; try contradiction. cbn [bind].
+        destruct done.
+        -- destruct F as [F1 F2]. split; [exact F1|]. pose proof (ccount_ge0 (x - 1) (firstn (Z.to_nat (nrows g)) (g_rows g))).
+           unfold rank_al in *. cbn [fst snd] in *. lia.
+        -- destruct F as (F1 & F2 & F3 & F4). unfold pos_of, at_cell. cbn [g_px g_py set_pos].
+           assert (VA : valid_al g (py', px')) by (unfold valid_al, valid; cbn [fst snd]; repeat split; lia).
+           split; [reflexivity|]. split; [exact VA|]. pose proof (rank_al_succ g py' px' VA). lia.
+      * unfold pos_of, at_cell. cbn [g_px g_py set_pos].
+        assert (VA : valid_al g (nrows g - 1, x - 1)) by (unfold valid_al, valid; cbn [fst snd]; repeat split; lia).
+        split; [reflexivity|]. split; [exact VA|]. pose proof (rank_al_succ g (nrows g - 1) (x - 1) VA). lia.
+  - replace (nrows g - 1 <? y - 1) with false by lia.
+    pose proof (find_first_backward (ff_fuel g) g x (y - 1) W ltac:(lia) ltac:(lia) (ff_fuel_enough_back g x (y - 1) W ltac:(lia) ltac:(lia))) as F.
+    replace (y - 1 + 1) with y in F by lia.
+    rewrite (idx_rows 403 g (y - 1) ltac:(lia)). cbn [bind]. rewrite A.
+    destruct (rowlen g (y - 1) - 1 <? x) eqn:E5.
+    + change (ff_fuel (set_pos g x y)) with (ff_fuel g). rewrite find_first_set_pos.
+      destruct (find_first (ff_fuel g) g 0 (-1) x (y - 1)) as [[[[px' py'] done] next]| |]; try contradiction. cbn [bind].
+      destruct done.
+      * destruct F as [F1 F2]. split; [exact F1|]. unfold rank_al. cbn [fst snd]. exact F2.
+      * destruct F as (F1 & F2 & F3 & F4). unfold pos_of, at_cell. cbn [g_px g_py set_pos].
+        assert (VA : valid_al g (py', px')) by (unfold valid_al, valid; cbn [fst snd]; repeat split; lia).
+        split; [reflexivity|]. split; [exact VA|]. pose proof (rank_al_succ g py' px' VA). unfold rank_al in *. cbn [fst snd] in *. lia.
+    + unfold pos_of, at_cell. cbn [g_px g_py set_pos].
+      assert (VA : valid_al g (y - 1, x)) by (unfold valid_al, valid; cbn [fst snd]; repeat split; lia).
+      split; [reflexivity|]. split; [exact VA|]. pose proof (rank_al_succ g (y - 1) x VA).
+      replace (y - 1 + 1) with y in H by lia. unfold rank_al in *. cbn [fst snd] in *. lia.
+Qed.
+
+Lemma cbelow_mono : forall g x y1 y2, 0 <= y1 -> y1 <= y2 -> y2 <= nrows g -> cbelow g x y1 <= cbelow g x y2.
+Proof.
+  intros g x y1 y2 H0 H1 H2.
+  replace y2 with (y1 + Z.of_nat (Z.to_nat (y2 - y1))) by lia.
+  assert (G : forall k, y1 + Z.of_nat k <= nrows g -> cbelow g x y1 <= cbelow g x (y1 + Z.of_nat k)).
+  { induction k; intros Hk; [rewrite Z.add_0_r; lia|].
+    replace (y1 + Z.of_nat (S k)) with ((y1 + Z.of_nat k) + 1) by lia. rewrite cbelow_succ by lia.
+    specialize (IHk ltac:(lia)). destruct (x <? rowlen g (y1 + Z.of_nat k)); lia. }
+  apply G. lia.
+Qed.
+
+Lemma colsum_mono : forall g x1 x2, 0 <= x1 -> x1 <= x2 -> colsum g x1 <= colsum g x2.
+Proof.
+  intros g x1 x2 H0 H1. replace x2 with (x1 + Z.of_nat (Z.to_nat (x2 - x1))) by lia.
+  induction (Z.to_nat (x2 - x1)) as [|k IH]; [rewrite Z.add_0_r; lia|].
+  replace (x1 + Z.of_nat (S k)) with ((x1 + Z.of_nat k) + 1) by lia. rewrite colsum_succ by lia.
+  pose proof (ccount_ge0 (x1 + Z.of_nat k) (g_rows g)). unfold ctotal. lia.
+Qed.
+
+Lemma total_al_pos : forall g, wf_aliased g -> 0 < total_al g.
+Proof.
+  intros g (A & MY & NC & N & MX & R). unfold total_al.
+  pose proof (colsum_mono g 1 (g_maxx g) ltac:(lia) ltac:(lia)) as M.
+  assert (C1 : colsum g 1 = ctotal g 0) by reflexivity.
+  assert (P : 0 < ctotal g 0).
+  { unfold ctotal, ccount. destruct (g_rows g) as [|l0 rs] eqn:RS; [unfold nrows, zlen in N; rewrite RS in N; cbn in N; lia|].
+    inversion R; subst. cbn [filter]. replace (0 <? l0) with true by lia. unfold zlen. cbn [length]. lia. }
+  lia.
+Qed.
+
+(* lastCell of an aliased group: the last rank *)
+Theorem aliased_last_rank : forall g, wf_aliased g ->
+  exists g', last_cell g = Ok g' /\ g' = at_cell g (pos_of g') /\ valid_al g (pos_of g') /\ rank_al g (pos_of g') = total_al g - 1.
+Proof.
+  intros g W. pose proof W as (A & MY & NC & N & MX & R). unfold last_cell. rewrite A. rewrite NC.
+  pose proof (find_first_backward (ff_fuel g) g (g_maxx g - 1) (nrows g - 1) W ltac:(lia) ltac:(lia)
+                (ff_fuel_enough_back g (g_maxx g - 1) (nrows g - 1) W ltac:(lia) ltac:(lia))) as F.
+  destruct (find_first (ff_fuel g) g 0 (-1) (g_maxx g - 1) (nrows g - 1)) as [[[[px' py'] done] next]| |]; try contradiction.
+  cbn [bind]. eexists. split; [reflexivity|]. unfold pos_of, at_cell. cbn [g_px g_py set_pos].
+  assert (T : vrank g (g_maxx g - 1) (nrows g - 1 + 1) = total_al g).
+  { replace (nrows g - 1 + 1) with (nrows g) by lia. rewrite vrank_wrap by lia. unfold total_al, vrank. rewrite cbelow_0.
+    replace (g_maxx g - 1 + 1) with (g_maxx g) by lia. lia. }
+  destruct done.
+  - (* the scan cannot fall off the front: column 0 has a cell in every row *)
+    destruct F as [_ F2]. exfalso. pose proof (total_al_pos g W). lia.
+  - destruct F as (F1 & F2 & F3 & F4).
+    assert (VA : valid_al g (py', px')) by (unfold valid_al, valid; cbn [fst snd]; repeat split; lia).
+    split; [reflexivity|]. split; [exact VA|]. pose proof (rank_al_succ g py' px' VA). lia.
+Qed.
+
+(* the first use of an aliased group *)
+Lemma aliased_fresh_forward : forall g, wf_aliased g -> g_px g = -1 -> g_py g = -1 ->
+  move_selector g 0 1 = Ok (set_pos g 0 0, false, false).
+Proof.
+  intros g (A & MY & NC & N & MX & R) PX PY. unfold move_selector. rewrite PX, PY. cbn -[idx Z.sub nrows find_first Z.ltb].
+  do 3 (change (0 <? 0) with false; cbn [bind]). replace (g_maxy g - 1 <? 0) with false by lia.
+  rewrite (idx_rows 403 g 0 ltac:(lia)). cbn [bind].
+  assert (1 <= rowlen g 0).
+  { unfold rowlen. rewrite Forall_forall in R. apply R. apply nth_In. unfold nrows, zlen in N. lia. }
+  replace (rowlen g 0 - 1 <? 0) with false by lia. reflexivity.
+Qed.
+
+(* the rank numbers the cells of an aliased grid: no two cells share one *)
+Theorem rank_al_inj : forall g c1 c2, wf_aliased g -> valid_al g c1 -> valid_al g c2 -> rank_al g c1 = rank_al g c2 -> c1 = c2.
+Proof.
+  intros g [y1 x1] [y2 x2] W V1 V2 E. pose proof V1 as [[Hy1 Hx1] Hm1]. pose proof V2 as [[Hy2 Hx2] Hm2]. cbn [fst snd] in *.
+  pose proof (rank_al_succ g y1 x1 V1) as S1. pose proof (rank_al_succ g y2 x2 V2) as S2.
+  unfold rank_al, vrank in *. cbn [fst snd] in *.
+  destruct (Z.lt_trichotomy x1 x2) as [L|[L|L]].
+  - (* every cell of column x1 is before column x2 *)
+    pose proof (cbelow_mono g x1 (y1 + 1) (nrows g) ltac:(lia) ltac:(lia) ltac:(lia)). rewrite cbelow_all in H.
+    pose proof (colsum_mono g (x1 + 1) x2 ltac:(lia) ltac:(lia)). rewrite colsum_succ in H0 by lia.
+    pose proof (ccount_ge0 x2 (firstn (Z.to_nat y2) (g_rows g))). unfold cbelow in *. lia.
+  - subst x2. destruct (Z.lt_trichotomy y1 y2) as [M|[M|M]]; [|subst; reflexivity|].
+    + pose proof (cbelow_mono g x1 (y1 + 1) y2 ltac:(lia) ltac:(lia) ltac:(lia)). lia.
+    + pose proof (cbelow_mono g x1 (y2 + 1) y1 ltac:(lia) ltac:(lia) ltac:(lia)). lia.
+  - pose proof (cbelow_mono g x2 (y2 + 1) (nrows g) ltac:(lia) ltac:(lia) ltac:(lia)). rewrite cbelow_all in H.
+    pose proof (colsum_mono g (x2 + 1) x1 ltac:(lia) ltac:(lia)). rewrite colsum_succ in H0 by lia.
+    pose proof (ccount_ge0 x1 (firstn (Z.to_nat y1) (g_rows g))). unfold cbelow in *. lia.
+Qed.
+
+Theorem rank_al_range : forall g c, wf_aliased g -> valid_al g c -> 0 <= rank_al g c < total_al g.
+Proof.
+  intros g [y x] W V. pose proof V as [[Hy Hx] Hm]. cbn [fst snd] in *.
+  pose proof (rank_al_succ g y x V) as S. unfold rank_al, vrank, total_al in *. cbn [fst snd] in *.
+  pose proof (cbelow_mono g x (y + 1) (nrows g) ltac:(lia) ltac:(lia) ltac:(lia)) as M. rewrite cbelow_all in M.
+  pose proof (colsum_mono g (x + 1) (g_maxx g) ltac:(lia) ltac:(lia)) as C. rewrite colsum_succ in C by lia.
+  pose proof (colsum_mono g 0 x ltac:(lia) ltac:(lia)) as C0. change (colsum g 0) with 0 in C0.
+  pose proof (ccount_ge0 x (firstn (Z.to_nat y) (g_rows g))). unfold cbelow in *. lia.
+Qed.
